@@ -26,7 +26,54 @@ SOURCES = ["c01", "c02", "c04", "c05", "c06", "c07", "c10", "c11", "c12"]  # c03
 K = 3
 
 
+def _gen_backpressure(rng, tier):
+    """More messages pending for one application than its bounded queue (max_app_queue_size) holds while it is not receiving, plus other
+    traffic on the same connection behind them: both workers must stall - and resume - the connection's reader at the same points."""
+    from ..wire import ws as _ws
+    from ..wire.h2raw import FrameBuilder, client_preface
+
+    for i in range(40 if tier == "quick" else 1200):
+        qsize = rng.choice([10, 10, 2, 5])
+        nmsg = qsize + rng.choice([1, 2, 6, 20])
+        wait = rng.choice([0.5, 1.0, 3.0])
+        tag = 8000000 + i * 10
+        slow = [["sleep", wait], ["recv_until_end"], ["respond", 200, [(b"x-tag", b"%d" % tag)], b"slow-%d" % tag]]
+        quick = [["recv_until_end"], ["respond", 200, [(b"x-tag", b"%d" % (tag + 1))], b"quick-%d" % (tag + 1)]]
+        carrier = rng.choice(["h2", "h2", "h1", "ws"])
+        base = {"backends": ["asyncio", "trio"], "config": {"keep_alive_timeout": 5000, "max_app_queue_size": qsize}, "conn": {},
+                "sched": {"seed": rng.randrange(1 << 30)}, "horizon": 100.0, "source": "c16"}
+        if carrier == "h2":
+            fb = FrameBuilder()
+            blob = client_preface(fb, {}) + fb.headers(1, [(b":method", b"POST"), (b":scheme", b"http"), (b":path", b"/t%d" % tag), (b":authority", b"h")], end_stream=False)
+            for k in range(nmsg):
+                blob += fb.data(1, b"d%03d" % k, end_stream=(k == nmsg - 1))
+            blob += fb.headers(3, [(b":method", b"GET"), (b":scheme", b"http"), (b":path", b"/t%d" % (tag + 1)), (b":authority", b"h")], end_stream=True)
+            blob += fb.ping(b"pingpong")
+            yield dict(base, family="c16:backpressure.h2", apps={"default": quick, "by_tag": {str(tag): slow, str(tag + 1): quick}},
+                       client=[["feed", blob], ["settle"], ["advance", wait + 1.0], ["settle"]], reactor={"kind": "h2", "credit": "auto"},
+                       truth={"requests": [{"method": "POST"}, {"method": "GET"}]})
+        elif carrier == "h1":
+            body = b"".join(b"4\r\nc%03d\r\n" % k for k in range(nmsg)) + b"0\r\n\r\n"
+            blob = b"POST /t%d HTTP/1.1\r\nHost: h\r\nTransfer-Encoding: chunked\r\n\r\n" % tag + body + b"GET /t%d HTTP/1.1\r\nHost: h\r\n\r\n" % (tag + 1)
+            yield dict(base, family="c16:backpressure.h1", apps={"default": quick, "by_tag": {str(tag): slow, str(tag + 1): quick}},
+                       client=[["feed_split", blob, [len(blob)] if rng.random() < 0.5 else [len(blob) // 2, len(blob) - len(blob) // 2]], ["settle"],
+                               ["advance", wait + 1.0], ["settle"], ["eof"], ["settle"]],
+                       truth={"requests": [{"method": "POST"}, {"method": "GET"}]})
+        else:
+            frames = b"".join(_ws.message_frames(_ws.OP_TEXT, b"m%03d" % k) for k in range(nmsg)) + _ws.frame(_ws.OP_PING, b"after")
+            app = [["recv"], ["send", {"type": "websocket.accept"}], ["sleep", wait], ["ws_echo"]]
+            yield dict(base, family="c16:backpressure.ws", apps={"default": app, "websocket": app},
+                       client=[["feed", _ws.handshake(path=b"/t%d" % tag)], ["settle"], ["feed", frames], ["settle"], ["advance", wait + 1.0], ["settle"],
+                               ["feed", _ws.close_frame(1000)], ["settle"]],
+                       reactor={"kind": "ws", "echo_close": False}, truth={})
+
+
 def gen(rng, tier):
+    yield from _gen_backpressure(rng, tier)
+    yield from _gen_sources(rng, tier)
+
+
+def _gen_sources(rng, tier):
     import importlib
 
     per = N_PER_SOURCE[tier]
@@ -124,7 +171,9 @@ def normalise(case, obs):
         client = ("h2", rx.upgrade_head is not None and rx.upgrade_head[:12],
                   sorted((sid, s.status, tuple(s.final_headers() and [x for x in s.final_headers() if x[0] != b"date"] or ()),
                           # how much of a response the server itself aborted had already left is a scheduling matter (send task vs application)
-                          "<aborted>" if (s.rst is not None and not s.ended) else _h(s.data), s.ended, s.rst)
+                          "<aborted>" if (s.rst is not None and not s.ended) else _h(s.data), s.ended, s.rst,
+                          # *when* each stream's response ended (virtual time is deterministic; equal instants compare equal)
+                          None if s.end_t is None else round(s.end_t, 6))
                          for sid, s in rx.streams.items()),
                   None if rx.goaway is None else (rx.goaway.get("code"), rx.goaway.get("last")))
     elif r.get("kind") == "ws" and obs.reactor is not None:
@@ -143,6 +192,26 @@ def normalise(case, obs):
             client = ("h1", tuple((x.status, tuple(h for h in x.headers if h[0].lower() != b"date"), _h(x.body) if x.complete else "<aborted>", x.complete) for x in resps))
         except h1.Malformed:
             client = _h2_structure(data)
+            if client[0] == "raw" and data.startswith(b"HTTP/1."):
+                # an HTTP/1 response followed by an HTTP/2 session on the same connection (prior-knowledge preface pipelined behind a request)
+                from ..wire.h2raw import FrameReader
+
+                pos = -1
+                while True:
+                    pos = data.find(b"\r\n\r\n", pos + 1)
+                    if pos < 0:
+                        break
+                    rest = data[pos + 4:]
+                    rd = FrameReader()
+                    evs = rd.feed(rest)
+                    if evs and not rd.errors and evs[0]["t"] == "settings":
+                        try:
+                            rs, _ = h1.parse_responses(data[:pos + 4], methods, True)
+                            head = tuple((x.status, tuple(h for h in x.headers if h[0].lower() != b"date"), _h(x.body) if x.complete else "<aborted>", x.complete) for x in rs)
+                        except h1.Malformed:
+                            head = ("raw", _h(data[:pos + 4]))
+                        client = ("h1+h2", head, _h2_structure(rest))
+                        break
     closed = None if obs.closed_at is None else round(obs.closed_at, 6)
     return {"apps": apps, "client": client, "closed_at": closed, "handler": obs.handler}
 
@@ -227,6 +296,16 @@ def run_one(case, tally):
     if any(o.open_sends() and any(v in ("http.disconnect", "websocket.disconnect") for v in o.blocked_puts().values()) for o in obs_all):
         tally.notes["known-deadlock-excluded(C06)"] += 1
         return findings, obs_all
+    # ND: a client that sends WebSocket frames before the server has answered (or even seen) its handshake - e.g. pipelined behind a
+    # request still in progress - races the application's accept; which side wins is a scheduling matter, not a protocol one
+    t_frames = _ws_frames_fed_at(case)
+    if t_frames is not None:
+        for o in obs_all:
+            for e in o.app_events(kind="start"):
+                if e[4]["scope"].get("type") == "websocket" and (t_frames[1] or e[1] > t_frames[0] + 1e-9):
+                    tally.notes["ws-frames-before-handshake-answer-excluded:" + case["source"]] += 1
+                    tally.clause("racy-excluded")
+                    return findings, obs_all
     racy = [be for be in norms if any(n != norms[be][0] for n in norms[be][1:])]
     if racy:
         tally.notes["racy-excluded:" + case["source"]] += 1
@@ -250,6 +329,25 @@ def run_one(case, tally):
                          "detail": "family %s differs in %s:\n asyncio: %s\n trio:    %s" % (
                              case["family"], diff, repr({k: a[k] for k in diff})[:600], repr({k: t[k] for k in diff})[:600])})
     return findings, obs_all
+
+
+def _ws_frames_fed_at(case):
+    """Client-side virtual time of the first bytes fed after an HTTP/1 WebSocket handshake, or None."""
+    t, seen_hs = 0.0, False
+    for st in case.get("client", []):
+        if st[0] == "advance":
+            t += st[1]
+        elif st[0] in ("feed", "feed_nosettle", "feed_split") and isinstance(st[1], (bytes, bytearray)):
+            if seen_hs:
+                return (t, False)
+            low = bytes(st[1]).lower()
+            i = low.find(b"upgrade: websocket")
+            if i >= 0:
+                seen_hs = True
+                end = low.find(b"\r\n\r\n", i)
+                if end >= 0 and end + 4 < len(low):
+                    return (t, True)  # frames in the same write as the handshake
+    return None
 
 
 def nontrivial(case, obs):
